@@ -60,5 +60,5 @@ Qed.
 Lemma no_join_ordered : forall ops, Forall no_join_op ops -> join_ordered ops.
 Proof.
   intros ops H. unfold join_ordered. eapply Forall_impl; [|exact H].
-  intros o Ho. destruct o; simpl in *; auto.
+  intros o Ho. destruct o; simpl in *; auto; contradiction.
 Qed.
